@@ -35,6 +35,8 @@ pub struct Stats {
   pub tasks_polled: AtomicU64,
   pub multi_ready_decisions: AtomicU64,
   pub clock_jumps_over_2: AtomicU64,
+  /// timer creations during which scripted time passed (fault)
+  pub clock_creeps: AtomicU64,
   /// value of the global event sequence at each task spawn
   pub spawn_stamps: Mutex<Vec<u64>>,
 }
@@ -93,13 +95,21 @@ pub struct SimTimer {
 impl Future for SimTimer {
   type Output = ();
   fn poll(self: Pin<&mut Self>, cx: &mut Context<'_>) -> Poll<()> {
-    if self.shared.clock.load(SeqCst) >= self.cell.deadline {
+    if self.cell.deadline != NEVER && self.shared.clock.load(SeqCst) >= self.cell.deadline {
       Poll::Ready(())
     } else {
       *self.cell.waker.lock().unwrap() = Some(cx.waker().clone());
       Poll::Pending
     }
   }
+}
+
+thread_local! {
+  /// nanoseconds that pass inside the next timer creations (consumed in order)
+  pub static CREEP: RefCell<std::collections::VecDeque<u64>> = const { RefCell::new(std::collections::VecDeque::new()) };
+}
+pub fn set_creep(ns: &[u64]) {
+  CREEP.with(|c| *c.borrow_mut() = ns.iter().copied().collect());
 }
 
 /// deadline of a timer whose duration is beyond the clock's range
@@ -159,6 +169,13 @@ impl Shared {
     th.next_seq += 1;
     th.heap.push(TimerEntry { deadline, seq, cell: Arc::downgrade(&cell) });
     drop(th);
+    // fault: the real clock does not stand still between the creation of a
+    // timer and its first poll; a scripted amount of time passes right here
+    let creep = CREEP.with(|c| c.borrow_mut().pop_front()).unwrap_or(0);
+    if creep > 0 {
+      self.stats.clock_creeps.fetch_add(1, SeqCst);
+      self.advance_to(self.now().saturating_add(creep));
+    }
     SimTimer { cell, shared: self.clone() }
   }
 
@@ -187,6 +204,8 @@ impl Shared {
   /// in (deadline, creation) order. Returns the number of distinct deadlines
   /// passed.
   pub fn advance_to(&self, t: u64) -> usize {
+    // the clock stops one tick short of NEVER: a timer that is never due stays so
+    let t = t.min(NEVER - 1);
     if t > self.now() {
       self.clock.store(t, SeqCst);
     }
